@@ -4,6 +4,7 @@ C05 — canonical N-Quads is a complete isomorphism invariant: theorems about th
 All statements hold for every hash function `H`, every depth guard and permutation limit.
 -/
 import SophiaProofs.Lemmas.Sound
+import SophiaProofs.Lemmas.Outcomes
 import SophiaModel.Model.Sha2
 
 namespace SophiaProofs.C05
@@ -593,5 +594,125 @@ example : ∀ q ∈ sample, QuadOK q := by
 
 example : (relabelWith Sha2.sha256Hex (fun d n => decide (d > n)) 6 sample).toBool = true := by native_decide
 example : (normalizeWith Sha2.sha256Hex (fun d n => decide (d > n)) 6 sample).toBool = true := by native_decide
+
+end SophiaProofs.C05
+
+namespace SophiaProofs.C05
+open SophiaModel SophiaModel.Rdfc10 SophiaProofs.Rdfc10L SophiaProofs.CnqL
+
+/-! ### explicit errors only; the map's domain is exactly the blank nodes of the dataset -/
+
+/-- audited flag: step 2 of rdfc10.rs rejects non-IRI predicates (regenerated from the source; a regression
+flips the flag and fails this obligation — the two theorems below rely on it: with a literal predicate
+`hash_related_bnode` used to panic) -/
+theorem flag_predicate_must_be_iri : Gen.predicateMustBeIri = true := rfl
+
+/-- **`relabel_with` fails only with an explicit, documented error**: for every dataset, hash function and
+limits the outcome is a result, `Unsupported`, or one of the two `ToxicGraph` causes.  None of the
+`unwrap()`s of `hash_related_bnode` / `hash_n_degree_quads` / step 6 can fail, and the recursion is
+bounded by the number of blank nodes (the model's fuel `#labels + 1` is never exhausted): every
+recursion level issues a fresh temporary identifier to a label of the dataset (`hashNDegree_safe`). -/
+theorem relabel_outcomes_explicit (H : Str → Str) (td : Nat → Nat → Bool) (pl : Nat) (D : List Quad) :
+    (∃ r, relabelWith H td pl D = .ok r) ∨ relabelWith H td pl D = .error .unsupported ∨
+      relabelWith H td pl D = .error (.hnd .depth) ∨ relabelWith H td pl D = .error (.hnd .perms) := by
+  cases h : relabelWith H td pl D with
+  | ok r => exact Or.inl ⟨r, rfl⟩
+  | error e =>
+    rcases relabelWith_err h with ⟨he, _⟩ | ⟨he, hh⟩ | hp
+    · exact Or.inr (Or.inl (by rw [he]))
+    · subst hh
+      rcases relabelWith_hnd_good flag_predicate_must_be_iri h with hg | hg
+      · exact Or.inr (Or.inr (Or.inl (by rw [hg])))
+      · exact Or.inr (Or.inr (Or.inr (by rw [hg])))
+    · exact absurd (hp ▸ h) (step6_never_panics H td pl D)
+
+theorem comp_mem_quadTerms {q : Quad} {c : Term × Str} (hc : c ∈ components q) : c.1 ∈ quadTerms q := by
+  unfold components at hc
+  unfold quadTerms
+  rcases List.mem_append.mp hc with hc | hc
+  · simp only [List.mem_cons, List.not_mem_nil, or_false] at hc
+    rcases hc with rfl | rfl | rfl <;> simp
+  · cases hg : q.g with
+    | none => rw [hg] at hc; cases hc
+    | some g =>
+      rw [hg] at hc
+      simp only [List.mem_cons, List.not_mem_nil, or_false] at hc
+      subst hc
+      simp [hg]
+
+/-- **the domain of the returned map is exactly the set of blank node labels of the dataset** (with
+`issued_bij`: the number of issued identifiers is the number of blank nodes) -/
+theorem issued_dom_iff {H : Str → Str} {td : Nat → Nat → Bool} {pl : Nat} {D out : List Quad} {m : SMap Str}
+    (h : relabelWith H td pl D = .ok (out, m)) (b : Str) : (m.get b).isSome = true ↔ IsLabel D b := by
+  constructor
+  · intro hb
+    obtain ⟨b2q, h2, hk⟩ := relabelWith_canonKeys flag_predicate_must_be_iri h
+    have := hk b hb
+    rw [step2_get h2 b] at this
+    by_cases hnil : D.flatMap (refsOf b) = []
+    · rw [if_pos hnil] at this; cases this
+    · obtain ⟨q, hq, c, hc, hcb⟩ := (refs_ne_nil_iff D b).mp hnil
+      exact ⟨q, hq, hcb ▸ comp_mem_quadTerms hc⟩
+  · rintro ⟨q, hq, ht⟩
+    exact issued_total h q hq _ ht b rfl
+
+end SophiaProofs.C05
+
+namespace SophiaProofs.C05
+open SophiaModel SophiaModel.Rdfc10 SophiaProofs.Rdfc10L SophiaProofs.CnqL
+
+/-! ### the unrestricted soundness direction is FALSE for the algorithm as specified
+
+Finding C05-rdfc10-ambiguous-tie.  `_:x` and `_:y` below differ only in WHICH IRI-named graph links
+them to `_:h` and to `_:m` (`_:m` carries an extra quad, so no automorphism exchanges x and y).
+Hash Related Blank Node hashes position, predicate and identifier of the related node — not the
+graph name of the quad — so x and y get equal first-degree and equal n-degree hashes and step 5.3
+orders them by label.  Swapping the two labels therefore changes the canonical document. -/
+
+def tieDataset (x y : String) : List Quad :=
+  let b (s : String) : Term := .bnode s.toList
+  let i (s : String) : Term := .iri s.toList
+  [⟨b "h", i "x:q", b x, some (i "x:g0")⟩, ⟨b "h", i "x:q", b y, some (i "x:g1")⟩,
+   ⟨b "m", i "x:q", b x, some (i "x:g1")⟩, ⟨b "m", i "x:q", b y, some (i "x:g0")⟩,
+   ⟨b "m", i "x:r", i "x:o", none⟩]
+
+/-- the renaming that exchanges the labels `x` and `y` -/
+def swapXY (l : Str) : Str := if l = ['x'] then ['y'] else if l = ['y'] then ['x'] else l
+
+theorem swapXY_invol (l : Str) : swapXY (swapXY l) = l := by
+  unfold swapXY
+  by_cases h1 : l = ['x']
+  · subst h1; decide
+  · by_cases h2 : l = ['y']
+    · subst h2; decide
+    · simp [h1, h2]
+
+theorem swapXY_inj (a b : Str) (h : swapXY a = swapXY b) : a = b := by
+  rw [← swapXY_invol a, ← swapXY_invol b, h]
+
+/-- both labelings are canonicalised successfully (SHA-256, no limits hit) to DIFFERENT documents -/
+def tieDiffers : Bool :=
+  match normalizeWith Sha2.sha256Hex (fun _ _ => false) 6 (tieDataset "x" "y"),
+        normalizeWith Sha2.sha256Hex (fun _ _ => false) 6 ((tieDataset "x" "y").map (renameQuad swapXY)) with
+  | .ok a, .ok b => a != b
+  | _, _ => false
+
+/-- **`SoundFull` is refuted** for SHA-256 (native evaluation of the model the driver executes; the
+implementation agrees with the model on this input in every run: corpus/C05/graph-iri-tie.req) -/
+theorem soundFull_refuted : ¬ SoundFull Sha2.sha256Hex := by
+  intro h
+  have hd : tieDiffers = true := by native_decide
+  unfold tieDiffers at hd
+  cases h1 : normalizeWith Sha2.sha256Hex (fun _ _ => false) 6 (tieDataset "x" "y") with
+  | error e => rw [h1] at hd; cases hd
+  | ok a =>
+    cases h2 : normalizeWith Sha2.sha256Hex (fun _ _ => false) 6 ((tieDataset "x" "y").map (renameQuad swapXY)) with
+    | error e => rw [h1, h2] at hd; cases hd
+    | ok b =>
+      rw [h1, h2] at hd
+      have := h (fun _ _ => false) 6 swapXY (tieDataset "x" "y") ((tieDataset "x" "y").map (renameQuad swapXY)) a b
+        swapXY_inj (List.Perm.refl _) h1 h2
+      rw [this] at hd
+      simp at hd
 
 end SophiaProofs.C05
